@@ -131,6 +131,12 @@ fn response_bytes(x: usize, e: &Value) -> (Vec<Vec<u8>>, bool) {
         all.truncate(head_len + wire_cut.min(wire_body.len()));
         close = true;
     }
+    // the server closes inside the head: after `hcut` bytes, always before the blank line that ends it
+    let hcut = e.get("hcut").and_then(|h| h.as_i64()).unwrap_or(-1);
+    if hcut >= 0 {
+        all.truncate((hcut as usize).min(head_len - 1));
+        close = true;
+    }
     let seg = e["seg"].as_u64().unwrap_or(1 << 20) as usize;
     let mut segs: Vec<Vec<u8>> = all.chunks(seg.max(1)).map(|c| c.to_vec()).collect();
     if e["extra"].as_bool().unwrap_or(false) {
@@ -249,17 +255,19 @@ fn run_case(case: &Value) -> Vec<Value> {
                 let srv = srv.clone();
                 let e = ex[x + k].clone();
                 let _order = order.clone();
+                // sequential runs: the k-th request issued is the k-th the server sees, so a failed send can be attributed
+                let issued = if conc == 1 { x + k + 1 } else { 0 };
                 handles.push(tokio::task::spawn_local(async move {
                     let res = match tokio::time::timeout(Duration::from_secs(120), client.get("http://origin.test/x").send()).await {
                         Ok(r) => r,
                         Err(_) => {
-                            srv.borrow_mut().events.push(json!({"ev":"Fail","status":0,"err":"no response within 120 s of virtual time"}));
+                            srv.borrow_mut().events.push(json!({"ev":"Fail","x":issued,"status":0,"err":"no response within 120 s of virtual time"}));
                             return;
                         }
                     };
                     match res {
                         Err(err) => {
-                            srv.borrow_mut().events.push(json!({"ev":"Fail","status":0,"err":format!("{err:?}").chars().take(60).collect::<String>()}));
+                            srv.borrow_mut().events.push(json!({"ev":"Fail","x":issued,"status":0,"err":format!("{err:?}").chars().take(60).collect::<String>()}));
                         }
                         Ok(mut r) => {
                             let status = r.status().as_u16();
@@ -310,7 +318,7 @@ pub fn replay(cases: &[Value], out: &mut TraceOut) {
             .unwrap()
             .iter()
             .map(|e| json!({"status":e["status"],"framing":e["framing"],"n":e["n"],"cut":e["cut"].as_i64().unwrap_or(-1),"persistent":e["persistent"].as_bool().unwrap_or(true),
-                            "extra":e["extra"].as_bool().unwrap_or(false),"drop":e["drop"].as_bool().unwrap_or(false),
+                            "extra":e["extra"].as_bool().unwrap_or(false),"drop":e["drop"].as_bool().unwrap_or(false),"hcut":e.get("hcut").and_then(|h| h.as_i64()).unwrap_or(-1),
                             "bad":e.get("gz").and_then(|g| g.as_str()).map(|g| g != "ok").unwrap_or(false)}))
             .collect();
         out.emit(json!({"ev":"Reset","run":i+1,"ex":gt,"limit":case["limit"].as_u64().unwrap_or(2)}));
